@@ -734,6 +734,9 @@ func ruleR10() *Rule {
 							if _, isSl := sl.X.Type().Underlying().(*types.Slice); !isSl {
 								return
 							}
+							if onlyInspected(sl, 0) {
+								return // looked at (a self-check ranging over the spare capacity), never kept or read into anything
+							}
 							k := fmt.Sprintf("%s.%s@%s", t.name, f, funcShortName(fn))
 							key := t.name + "/reextend/" + f + "@" + funcShortName(fn)
 							if reason, ok := reextendOK[k]; ok {
@@ -1029,4 +1032,66 @@ func loopBoundField(idx ssa.Value, sn string, recv *ssa.Parameter) (string, bool
 		}
 	}
 	return "", false
+}
+
+// onlyInspected: the re-sliced value is only ranged over / indexed for reading, and what is read is only
+// compared (with nil, zero, a constant), measured, or asked a question through a method of another
+// package that takes nothing else (`bs.IsEmpty()`); it is never stored, returned or handed on.
+func onlyInspected(v ssa.Value, depth int) bool {
+	if depth > 4 || v.Referrers() == nil {
+		return false
+	}
+	elemOK := func(e ssa.Value) bool {
+		for _, r := range *e.Referrers() {
+			switch x := r.(type) {
+			case *ssa.DebugRef:
+			case *ssa.BinOp:
+				switch x.Op {
+				case token.EQL, token.NEQ, token.LSS, token.GTR, token.LEQ, token.GEQ:
+				default:
+					return false
+				}
+			case *ssa.If:
+			case *ssa.Call:
+				if b, ok := x.Call.Value.(*ssa.Builtin); ok && (b.Name() == "len" || b.Name() == "cap") {
+					continue
+				}
+				f := x.Call.StaticCallee()
+				if f == nil || f.Pkg == nil || strings.HasPrefix(f.Pkg.Pkg.Path(), zapPkgPath) || len(x.Call.Args) != 1 || x.Call.Args[0] != e {
+					return false
+				}
+				if !strings.HasPrefix(f.Name(), "Is") && f.Name() != "GetCardinality" && f.Name() != "Len" {
+					return false
+				}
+			default:
+				return false
+			}
+		}
+		return true
+	}
+	for _, r := range *v.Referrers() {
+		switch x := r.(type) {
+		case *ssa.DebugRef:
+		case *ssa.Call:
+			if b, ok := x.Call.Value.(*ssa.Builtin); !ok || (b.Name() != "len" && b.Name() != "cap") {
+				return false
+			}
+		case *ssa.IndexAddr:
+			for _, r2 := range *x.Referrers() {
+				ld, ok := r2.(*ssa.UnOp)
+				if !ok || ld.Op != token.MUL || !elemOK(ld) {
+					if _, isDbg := r2.(*ssa.DebugRef); !isDbg {
+						return false
+					}
+				}
+			}
+		case *ssa.Phi:
+			if !onlyInspected(x, depth+1) {
+				return false
+			}
+		default:
+			return false
+		}
+	}
+	return true
 }
